@@ -62,6 +62,7 @@ type finding struct {
 	Signature string `json:"signature"`
 	Commit    string `json:"commit,omitempty"`
 	What      string `json:"what"`
+	Line      string `json:"line,omitempty"`
 }
 
 type violation struct {
@@ -709,7 +710,11 @@ func decide(id string, spec checkSpec, tier string, seed uint64, results []*unit
 		}
 	}
 	for _, f := range knownHit {
-		fmt.Fprintf(out, "KNOWN-FINDING: property=%s %s\n", id, f.What)
+		if strings.HasPrefix(f.Line, "KNOWN-FINDING: property="+id+" ") {
+			fmt.Fprintln(out, f.Line)
+		} else {
+			fmt.Fprintf(out, "KNOWN-FINDING: property=%s %s\n", id, f.What)
+		}
 	}
 	verdict := 0
 	if len(fresh) == 0 && len(inconcl) == 0 && distinct < spec.MinNontrivial {
